@@ -279,22 +279,19 @@ def lock_order(ctx):
             "deadlocks": []}
     for k in summ["accepted_out_of_scope"]:
         ctx.log("NOTE lock-order cycle edge accepted as out of scope: %s (%s)" % (k, accepted[k]["reason"]))
-    # Self-test of the model on the accepted (out-of-scope) cycle: TLC must find
-    # the deadlock those pairs admit, otherwise the deadlock half is vacuous.
-    acc_edges = [e for e in cyc_edges if edge_id(e) in accepted]
-    if acc_edges:
-        paths = ["<< <<%s, %s>>, <<%s, %s>> >>" % (tla_str(e["held"]), tla_str(e["hmode"]), tla_str(e["acq"]), tla_str(e["amode"]))
-                 for e in acc_edges]
-        facts = ctx.path("LockOrderFacts_selftest.tla")
-        with open(facts, "w") as fh:
-            fh.write("--------------------------- MODULE LockOrderFacts ---------------------------\n")
-            fh.write("NThreads == 2\nPaths == {\n  %s\n}\n" % ",\n  ".join(paths))
-            fh.write("=============================================================================\n")
-        r = ctx.tlc("LockOrder", "LockOrder.cfg", workers=2, timeout=300, extra_files=[(facts, "LockOrderFacts.tla")],
-                    expect_violation=True)
-        if r["violated"] != "NoDeadlock":
-            raise vlib.Inconclusive("LockOrder self-test: TLC did not find the deadlock of the accepted AB/BA cycle")
-        summ["selftest"] = "TLC finds the deadlock of the accepted out-of-scope AB/BA cycle"
+    # Self-test of the model on a fixed AB/BA pair of write locks: TLC must find
+    # the deadlock those two paths admit, otherwise the deadlock half is vacuous.
+    facts = ctx.path("LockOrderFacts_selftest.tla")
+    with open(facts, "w") as fh:
+        fh.write("--------------------------- MODULE LockOrderFacts ---------------------------\n")
+        fh.write("NThreads == 2\nPaths == {\n  << <<\"selftest.A\", \"w\">>, <<\"selftest.B\", \"w\">> >>,\n"
+                 "  << <<\"selftest.B\", \"w\">>, <<\"selftest.A\", \"w\">> >>\n}\n")
+        fh.write("=============================================================================\n")
+    r = ctx.tlc("LockOrder", "LockOrder.cfg", workers=2, timeout=300, extra_files=[(facts, "LockOrderFacts.tla")],
+                expect_violation=True)
+    if r["violated"] != "NoDeadlock":
+        raise vlib.Inconclusive("LockOrder self-test: TLC did not find the deadlock of an AB/BA pair")
+    summ["selftest"] = "TLC finds the deadlock of a fixed AB/BA pair of write locks"
     rounds = 0
     while live and rounds < 6:
         rounds += 1
